@@ -234,18 +234,33 @@ Definition rename_preserves_step := step_rename.
 
 (* wfb (the premise of C01's refinement theorem, evaluated on every dumped
    design) implies the arity premise used here *)
+Lemma nets_ok_arity nl ns : forall rdy n,
+  nets_ok nl rdy ns = true -> In n ns -> is_comb (nop n) = true ->
+  arity_ok (nop n) (length (nargs n)) = true.
+Proof.
+  induction ns as [|x r IH]; intros rdy n H Hin Hc; [destruct Hin|].
+  cbn [nets_ok] in H. apply andb_prop in H. destruct H as [H1 H2].
+  destruct Hin as [->|Hin]; [|exact (IH _ n H2 Hin Hc)].
+  unfold net_ok in H1. rewrite Hc in H1.
+  apply andb_prop in H1. destruct H1 as [H1 _].
+  apply andb_prop in H1. destruct H1 as [_ H1]. exact H1.
+Qed.
+
 Lemma wfb_seq_arity nl : wfb nl = true -> seq_arity nl = true.
 Proof.
   unfold wfb, seq_arity. intro H.
-  repeat (apply andb_true_iff in H; destruct H as [H ?]).
-  match goal with
-  | H4 : forallb (fun n => if is_comb (nop n) then true else _) (nets nl) = true |- _ =>
-      rename H4 into Hn
-  end.
+  apply andb_prop in H; destruct H as [H _].
+  apply andb_prop in H; destruct H as [H Hn].
+  apply andb_prop in H; destruct H as [_ Hc].
   rewrite forallb_forall in Hn |- *. intros n Hin. specialize (Hn n Hin).
-  unfold seq_arity_ok. destruct (nop n); try reflexivity; cbn [is_comb] in Hn;
-    apply andb_true_iff in Hn; destruct Hn as [_ Hn]; cbn [arity_ok] in Hn;
-    apply Nat.eqb_eq in Hn; rewrite Hn; reflexivity.
+  pose proof (nets_ok_arity nl (nets nl) _ n Hc Hin) as Hc'.
+  unfold seq_arity_ok. destruct (nop n); try reflexivity.
+  - cbn [is_comb] in Hn. apply andb_prop in Hn. destruct Hn as [_ Hn]. cbn [arity_ok] in Hn.
+    apply Nat.eqb_eq in Hn. rewrite Hn. reflexivity.
+  - specialize (Hc' eq_refl). cbn [arity_ok] in Hc'.
+    apply Nat.eqb_eq in Hc'. rewrite Hc'. reflexivity.
+  - cbn [is_comb] in Hn. apply andb_prop in Hn. destruct Hn as [_ Hn]. cbn [arity_ok] in Hn.
+    apply Nat.eqb_eq in Hn. rewrite Hn. reflexivity.
 Qed.
 
 (* ---------------------------------------------------------------- copy_block *)
